@@ -8,6 +8,7 @@ import (
 	"github.com/B1NARY-GR0UP/originium/types"
 
 	"verif/shim/vos"
+	"verif/vsched"
 )
 
 // c16Alphabet: all non-empty byte strings of length <= 2 over a byte alphabet with the
@@ -273,6 +274,64 @@ func c16Units(tier string) []Unit {
 			}
 		}
 	}})
+	// (4) filters of tables written by compaction, with every position of the discard watermark: every stored entry's
+	// user key must be admitted by the filter of the table that stores it (scheduled: the manager has an oracle)
+	units = append(units, Unit{Name: "compacted-filters", Weight: 2, Run: func(c *Ctx) {
+		keys := []string{"a", "a@1", "b", "z"}
+		// table shapes: which (key, ts) pairs each of three flushed tables holds
+		shapes := [][][]ver{
+			{{{Key: "a", Ts: 1}, {Key: "z", Ts: 1}}, {{Key: "a", Ts: 3}, {Key: "b", Ts: 3}, {Key: "z", Ts: 3}}, {{Key: "a@1", Ts: 5}, {Key: "z", Ts: 5, Tomb: true}}},
+			{{{Key: "a", Ts: 2}, {Key: "b", Ts: 2, Tomb: true}, {Key: "z", Ts: 2}}, {{Key: "a", Ts: 4}, {Key: "a@1", Ts: 4}, {Key: "z", Ts: 4}}, {{Key: "a", Ts: 6}, {Key: "b", Ts: 6}, {Key: "z", Ts: 6}}},
+			{{{Key: "a", Ts: 1}, {Key: "a@1", Ts: 1}, {Key: "b", Ts: 1}, {Key: "z", Ts: 1}}, {{Key: "a", Ts: 2}, {Key: "z", Ts: 2}}, {{Key: "b", Ts: 9}, {Key: "z", Ts: 9}}},
+		}
+		_ = keys
+		for si, shape := range shapes {
+			for wm := uint64(0); wm <= 7; wm++ {
+				for _, geo := range [][2]int{{1, 2}, {2, 2}, {1, 1}} {
+					var verr error
+					res := vsched.Run(vsched.Default{}, vsched.RunOpts{MaxSteps: 200000}, func() {
+						vos.MkdirAll("/d", 0o755)
+						lm := originium.NewVerifLM("/d", geo[0], geo[1], 4096, true)
+						if wm > 0 {
+							lm.SetWatermark(wm)
+							vsched.WaitQuiescent()
+						}
+						for _, t := range shape {
+							tt := append([]ver(nil), t...)
+							sortVers(tt)
+							if err := lm.Flush(entriesOf(tt)); err != nil {
+								verr = oerr("c16/flush-error", "%v", err)
+								return
+							}
+							lm.Compact()
+							for ti, tab := range lm.Tables() {
+								for _, e := range tab.Entries {
+									c.Res.Evaluations++
+									if !lm.FilterContains(ti, types.ParseKey(e.Key)) {
+										verr = oerr("c16/false-negative/compacted", "shape %d, watermark %d, L0TargetNum=%d ratio=%d: the filter of table L%d#%d denies %q, which the table stores", si, wm, geo[0], geo[1], tab.Level, tab.Idx, e.Key)
+										return
+									}
+								}
+							}
+						}
+					})
+					c.Res.Executions++
+					c.Res.States++
+					c.Res.Transitions += int64(res.Steps)
+					if verr == nil {
+						verr = StdCheck(res)
+					}
+					if verr != nil {
+						oe := verr.(*OracleErr)
+						c.Violation(oe.Sig, oe.Detail, nil, nil)
+						return
+					}
+					c.NT(fmt.Sprintf("compacted %d %d %v", si, wm, geo))
+				}
+			}
+		}
+		c.Sample(map[string]any{"shapes": len(shapes), "watermarks": "0..7", "geometries": "L0TargetNum/ratio 1/2, 2/2, 1/1"})
+	}})
 	return units
 }
 
@@ -281,7 +340,7 @@ func init() {
 		Units: c16Units,
 		Rule: "(between the member queries the same filter is asked about non-members, as lookups of other keys do) bounded-exhaustive inputs: every set of 1-3 user keys over all byte strings of length <= 2 from {0x00,'!','@','a',0xff}, each key in 1-3 versions, built with the real filter.Build and " +
 			"queried as the table lookup does; every entry count n = 1..4096 (thorough: ..8192 plus powers of two and neighbours up to 65537) with a deterministic key family, every member queried; " +
-			"every user-key length 1..600 (thorough: ..5000) and 8191..8193, 32768, 65513, 65514 (the largest the engine accepts) in two byte patterns, alone and with partners; filters rebuilt from table files by recover(); a case is non-trivial when the set has >= 2 distinct keys",
+			"every user-key length 1..600 (thorough: ..5000) and 8191..8193, 32768, 65513, 65514 (the largest the engine accepts) in two byte patterns, alone and with partners; filters rebuilt from table files by recover(); filters of the tables that compaction writes, for three table shapes x every discard watermark 0..7 x three level geometries, every stored entry queried; a case is non-trivial when the set has >= 2 distinct keys",
 		Assumptions: []string{
 			"exhaustive-input checking of a deterministic function: the bound is the alphabet and the n range",
 			"murmur3 is trusted",
